@@ -3,6 +3,7 @@
 package rules
 
 import (
+	"net/http"
 	"errors"
 	"net/url"
 	"strings"
@@ -10,6 +11,7 @@ import (
 	"github.com/rs/zerolog"
 
 	"github.com/dadrus/heimdall/internal/config"
+	"github.com/dadrus/heimdall/internal/handler/requestcontext"
 	"github.com/dadrus/heimdall/internal/heimdall"
 	config2 "github.com/dadrus/heimdall/internal/rules/config"
 	"github.com/dadrus/heimdall/internal/rules/rule"
@@ -78,8 +80,9 @@ func vC08Run(repo rule.Repository, rawPath string) (vOutcome, bool) {
 	if err != nil {
 		return vOutcome{}, false
 	}
-	u.Scheme, u.Host = "http", "svc"
-	ctx := &vLookupCtx{req: &heimdall.Request{Method: "GET", URL: &heimdall.URL{URL: *u}}}
+	// the request view is the one the HTTP entry points build (requestcontext.extractURL)
+	hreq := requestcontext.New(&http.Request{Method: "GET", URL: u, Host: "svc", Header: http.Header{}, RemoteAddr: "192.0.2.1:4711"}).Request()
+	ctx := &vLookupCtx{req: hreq}
 	r, ferr := repo.FindRule(ctx)
 	if ferr != nil {
 		return vOutcome{err: ferr}, true
@@ -178,12 +181,18 @@ func VerifC08EncodedSlash() {
 	pp := string([]byte{verifapi.NondetByteRange("pp[0]", 'a', 'z'), '/', verifapi.NondetByteRange("pp[1]", 'a', 'z')})
 	repo := vC08Repo(shape, slashes, "zz", pp)
 
-	got, ok := vC08Run(repo, "/a/"+seg)
+	// optionally followed by a character net/url does not accept unencoded in an escaped path
+	tail := []string{"", "{"}[verifapi.NondetChoice("unencoded-brace-follows", 2)]
+	got, ok := vC08Run(repo, "/a/"+seg+tail)
 	if !ok {
 		verifapi.Assert("C08/request-line-parses", false)
 		return
 	}
 	offOrDefault := setting <= 1 || got.rule == "default" || shape == 5
+	if tail != "" && !offOrDefault && got.rule != "" {
+		verifapi.Cover("brace-with-slashes-allowed") // the expected spellings below are for the plain segment only
+		return
+	}
 	switch {
 	case got.rule == "":
 		verifapi.Cover("no-rule")
